@@ -7,7 +7,7 @@ import warnings
 import numpy as np
 from hypothesis import strategies as st
 
-from ..core import given_law
+from ..core import Failure, Law, Violation, given_law
 from .. import gen
 
 RULE = ("ri in [0.02,0.95], nr in 5..18, azimuthal sampling npp in {5 nr (the kernel's own), int(2 pi nr) (make_kl's), 4 nr, "
@@ -97,7 +97,7 @@ def polar_body(ctx, p):
 
 @st.composite
 def cart_cases(draw):
-    nr = draw(st.integers(6, 16))
+    nr = draw(st.one_of(st.integers(6, 16), st.integers(17, 70)))       # the default is 40; every radial resolution must construct
     return {"ri": draw(st.one_of(st.floats(0.05, 0.9), st.sampled_from([0.2, 0.5]))), "nr": nr, "dim": draw(st.integers(8, 64)), "mask": draw(st.booleans()),
             "nmax": draw(st.integers(2, max(2, min(30, (nr * int(2 * math.pi * nr)) // 15)))), "outerscale": draw(st.sampled_from([None, None, 4.0]))}
 
@@ -151,7 +151,33 @@ def cart_body(ctx, p):
             m, ii[k], jj[k], vals[m, k], lo[m, k], hi[m, k], int(bad.sum()), bad.size))
 
 
+def resolution_run(ctx):
+    """make_kl must construct for EVERY radial resolution (exhaustive over nr = 5 .. 80 quick / 160 thorough): shapes, finite
+    modes, annulus pupil, variances in non-increasing order."""
+    kl = KL()
+    top = 80 if ctx.tier == "quick" else 160
+    cnt = 0
+    for nr in range(5 + ctx.shard, top + 1, ctx.nshards):
+        try:
+            modes, var, pupil, base = quiet(kl.make_kl, 4, 8, ri=0.25, nr=nr)
+        except Exception as e:
+            raise Failure({"nr": nr}, Violation("make_kl(4, 8, ri=0.25, nr=%d) raised %s: %s" % (nr, type(e).__name__, str(e)[:120])), None)
+        cnt += 1
+        if not (modes.shape == (4, 8, 8) and np.all(np.isfinite(modes)) and np.all(np.diff(np.asarray(var)) <= 1e-12 * abs(var[0]))):
+            raise Failure({"nr": nr}, Violation("make_kl(4, 8, ri=0.25, nr=%d): shape / finite / variance order" % nr), None)
+    ctx.bulk(cnt, cnt, sample={"nr": top}, exhaustive=None)
+    if ctx.shard == 0:
+        ctx.exhaustive.append("make_kl constructs for every radial resolution nr = 5 .. %d" % top)
+
+
+def resolution_replay(ctx, case):
+    kl = KL()
+    modes, var, pupil, base = quiet(kl.make_kl, 4, 8, ri=0.25, nr=case["nr"])
+    ctx.require(modes.shape == (4, 8, 8) and bool(np.all(np.isfinite(modes))), "make_kl(nr=%d): shape / finite" % case["nr"])
+
+
 LAWS = [
+    Law("every_resolution_constructs", resolution_run, replay=resolution_replay, shards={"quick": 8, "thorough": 16}),
     given_law("polar_xl", polar_cases(26), polar_body, {"quick": 0, "thorough": 6}, shards={"quick": 1, "thorough": 16}),
     given_law("polar", polar_cases(), polar_body, {"quick": 20, "thorough": 200}, shards={"quick": 6, "thorough": 16}),
     given_law("cartesian", cart_cases(), cart_body, {"quick": 16, "thorough": 150}, shards={"quick": 5, "thorough": 16}),
